@@ -232,6 +232,8 @@ func (il *Inliner) Normalise(fn *ssa.Function) {
 		il.Log = append(il.Log, fmt.Sprintf("%s <- %s", FuncName(fn), FuncName(callee)))
 	}
 	if il.Edited[fn] {
+		for fuseBlocks(fn) || threadBoolPhis(fn) {
+		}
 		finishFunc(fn)
 		if err := sanity(fn); err != nil {
 			panic(fmt.Sprintf("inline: %s is inconsistent after inlining: %v", fn, err))
@@ -771,4 +773,207 @@ func sanity(fn *ssa.Function) error {
 		}
 	}
 	return nil
+}
+
+// threadBoolPhis removes the blocks that inlining a Boolean helper leaves
+// behind: a block that consists of `x = phi(...)` and `if x` only.  Every
+// predecessor is routed straight to the branch its value selects (a constant
+// edge) or to a copy of the test on its own value, which is the control flow
+// the compiler front end produces for the same condition written in place.
+func threadBoolPhis(fn *ssa.Function) (any bool) {
+	for changed := true; changed; {
+		changed = false
+		for _, J := range fn.Blocks {
+			if len(J.Instrs) != 2 || len(J.Succs) != 2 || J.Succs[0] == J.Succs[1] {
+				continue
+			}
+			phi, ok1 := J.Instrs[0].(*ssa.Phi)
+			iff, ok2 := J.Instrs[1].(*ssa.If)
+			if !ok1 || !ok2 || iff.Cond != ssa.Value(phi) || len(*phi.Referrers()) != 1 {
+				continue
+			}
+			T, F := J.Succs[0], J.Succs[1]
+			if T == J || F == J || len(J.Preds) == 0 {
+				continue
+			}
+			// a successor phi may use J's phi on the edge from J only
+			usable := true
+			for _, p := range J.Preds {
+				if p == J {
+					usable = false
+				}
+				n := 0
+				for _, sc := range p.Succs {
+					if sc == J {
+						n++
+					}
+				}
+				if n != 1 {
+					usable = false
+				}
+			}
+			if !usable {
+				continue
+			}
+			jIdx := func(b *ssa.BasicBlock) int {
+				for i, p := range b.Preds {
+					if p == J {
+						return i
+					}
+				}
+				return -1
+			}
+			tIdx, fIdx := jIdx(T), jIdx(F)
+			if tIdx < 0 || fIdx < 0 {
+				continue
+			}
+			addPred := func(target *ssa.BasicBlock, from *ssa.BasicBlock, ji int, v ssa.Value) {
+				target.Preds = append(target.Preds, from)
+				for _, in := range target.Instrs {
+					tp, ok := in.(*ssa.Phi)
+					if !ok {
+						break
+					}
+					e := tp.Edges[ji]
+					if e == ssa.Value(phi) {
+						e = v
+					}
+					tp.Edges = append(tp.Edges, e)
+					addRef(e, tp)
+				}
+			}
+			var extra []*ssa.BasicBlock
+			for i, P := range J.Preds {
+				v := phi.Edges[i]
+				var to *ssa.BasicBlock
+				if c, isC := v.(*ssa.Const); isC && c.Value != nil {
+					target, ji := F, fIdx
+					if c.Value.String() == "true" {
+						target, ji = T, tIdx
+					}
+					addPred(target, P, ji, v)
+					to = target
+				} else {
+					N := newBlock(fn, "thread")
+					ni := &ssa.If{Cond: v}
+					setInstrBlock(ni, N)
+					addRef(v, ni)
+					N.Instrs = []ssa.Instruction{ni}
+					N.Preds = []*ssa.BasicBlock{P}
+					N.Succs = []*ssa.BasicBlock{T, F}
+					addPred(T, N, tIdx, v)
+					addPred(F, N, fIdx, v)
+					extra = append(extra, N)
+					to = N
+				}
+				for k, sc := range P.Succs {
+					if sc == J {
+						P.Succs[k] = to
+					}
+				}
+			}
+			// detach J
+			for _, e := range phi.Edges {
+				removeRef(e, phi)
+			}
+			dropPred := func(target *ssa.BasicBlock, ji int) {
+				target.Preds = append(target.Preds[:ji:ji], target.Preds[ji+1:]...)
+				for _, in := range target.Instrs {
+					tp, ok := in.(*ssa.Phi)
+					if !ok {
+						break
+					}
+					removeRefOnce(tp.Edges[ji], tp)
+					tp.Edges = append(tp.Edges[:ji:ji], tp.Edges[ji+1:]...)
+				}
+			}
+			dropPred(T, tIdx)
+			dropPred(F, fIdx)
+			var out []*ssa.BasicBlock
+			for _, b := range fn.Blocks {
+				if b == J {
+					out = append(out, extra...)
+					continue
+				}
+				out = append(out, b)
+			}
+			fn.Blocks = out
+			for i, b := range fn.Blocks {
+				b.Index = i
+			}
+			changed, any = true, true
+			break
+		}
+	}
+	return any
+}
+
+// fuseBlocks merges a block that ends in a jump with its successor when that
+// successor has no other predecessor (the seams left by inlining).
+func fuseBlocks(fn *ssa.Function) (any bool) {
+	for changed := true; changed; {
+		changed = false
+		for _, B := range fn.Blocks {
+			if len(B.Succs) != 1 {
+				continue
+			}
+			if _, ok := B.Instrs[len(B.Instrs)-1].(*ssa.Jump); !ok {
+				continue
+			}
+			S := B.Succs[0]
+			if S == B || len(S.Preds) != 1 || S == fn.Blocks[0] || S == fn.Recover {
+				continue
+			}
+			// single-edge phis are copies
+			for len(S.Instrs) > 0 {
+				phi, ok := S.Instrs[0].(*ssa.Phi)
+				if !ok {
+					break
+				}
+				e := phi.Edges[0]
+				removeRef(e, phi)
+				replaceAll(phi, e)
+				S.Instrs = S.Instrs[1:]
+			}
+			B.Instrs = append(B.Instrs[:len(B.Instrs)-1:len(B.Instrs)-1], S.Instrs...)
+			for _, in := range S.Instrs {
+				setInstrBlock(in, B)
+			}
+			B.Succs = S.Succs
+			for _, sc := range S.Succs {
+				for i, p := range sc.Preds {
+					if p == S {
+						sc.Preds[i] = B
+					}
+				}
+			}
+			var out []*ssa.BasicBlock
+			for _, b := range fn.Blocks {
+				if b != S {
+					out = append(out, b)
+				}
+			}
+			fn.Blocks = out
+			for i, b := range fn.Blocks {
+				b.Index = i
+			}
+			changed, any = true, true
+			break
+		}
+	}
+	return any
+}
+
+// removeRefOnce removes one occurrence of in from v's referrers.
+func removeRefOnce(v ssa.Value, in ssa.Instruction) {
+	r := v.Referrers()
+	if r == nil {
+		return
+	}
+	for i, x := range *r {
+		if x == in {
+			*r = append((*r)[:i:i], (*r)[i+1:]...)
+			return
+		}
+	}
 }
